@@ -158,6 +158,28 @@ def run(pid, units, results, seed):
             if collateral:
                 und.append("brittle proof: broken variant %s (in %s) also makes unrelated obligations fail in unit %s: %s" % (m["name"], mutated_fn, u, collateral[:3]))
     ev["broken_variants"] = mrows
+    # 3b. equivalent variants: meaning-preserving rewrites of the real code (contracts/equivalents.json, applied to
+    #     the text read from /repo, never written) must still verify - a failure here is a brittle proof, i.e. a
+    #     false alarm waiting to happen
+    erows = []
+    ep = os.path.join(ROOT, "contracts", "equivalents.json")
+    eqs = json.load(open(ep)) if os.path.exists(ep) else []
+    ejobs = [(e, u) for e in eqs for u in units
+             if u == e["unit"] or e["unit"] in results[u]["meta"].get("includes", [])]
+    with concurrent.futures.ThreadPoolExecutor(max_workers=10) as ex:
+        futs = []
+        for e, u in ejobs:
+            subst = {e["file"]: [(x["old"], x["new"]) for x in e["subs"]]}
+            futs.append((e, u, ex.submit(V.run_unit, u, "eqv/%s/%s" % (e["name"], u), subst)))
+        for e, u, fu in futs:
+            r = fu.result()
+            ids = [f["id"] for f in r.get("failures", [])]
+            erows.append(dict(name=e["name"], run_in_unit=u, status=r["status"], failed=ids[:4]))
+            if r["status"] == "extract-error":
+                und.append("equivalent variant %s: anchor lost (%s)" % (e["name"], r.get("detail")))
+            elif r["status"] != "ok":
+                und.append("brittle proof: equivalent variant %s no longer verifies in unit %s (%s): %s" % (e["name"], u, r["status"], ids[:3]))
+    ev["equivalent_variants"] = erows
     # 4. twin sanity
     try:
         import twin
